@@ -322,8 +322,10 @@ impl E1 {
         let mut per_case: BTreeMap<usize, Vec<(String, String)>> = BTreeMap::new();
         let mut other = Vec::new();
         let mut run = |args: &[&str]| {
-            let out = Command::new("cargo")
-                .args(args)
+            // watchdog: a derive macro that loops inside rustc would otherwise block the check for ever
+            let limit = std::env::var("VERIF_E1_BUILD_TIMEOUT").ok().and_then(|s| s.parse::<u64>().ok()).unwrap_or(1500);
+            let mut cmd = Command::new("cargo");
+            cmd.args(args)
                 .arg("--message-format=json")
                 .arg("--keep-going")
                 .arg("--offline")
@@ -334,9 +336,50 @@ impl E1 {
                 .env_remove("RUSTFLAGS")
                 .stdin(Stdio::null())
                 .stderr(Stdio::piped())
-                .stdout(Stdio::piped())
-                .output()
-                .expect("run cargo");
+                .stdout(Stdio::piped());
+            {
+                use std::os::unix::process::CommandExt;
+                cmd.process_group(0);
+            }
+            let mut child = cmd.spawn().expect("run cargo");
+            let (mut so, mut se) = (child.stdout.take().unwrap(), child.stderr.take().unwrap());
+            let h1 = std::thread::spawn(move || {
+                let mut b = Vec::new();
+                let _ = std::io::Read::read_to_end(&mut so, &mut b);
+                b
+            });
+            let h2 = std::thread::spawn(move || {
+                let mut b = Vec::new();
+                let _ = std::io::Read::read_to_end(&mut se, &mut b);
+                b
+            });
+            let start = std::time::Instant::now();
+            let mut timed_out = false;
+            let status = loop {
+                match child.try_wait() {
+                    Ok(Some(st)) => break st,
+                    Ok(None) => {}
+                    Err(e) => panic!("wait for cargo: {}", e),
+                }
+                if start.elapsed().as_secs() >= limit {
+                    timed_out = true;
+                    // the whole process group: cargo, its rustc children and their proc macros
+                    let _ = Command::new("kill").args(["-9", "--", &format!("-{}", child.id())]).status();
+                    let _ = child.kill();
+                    break child.wait().expect("wait for cargo");
+                }
+                std::thread::sleep(std::time::Duration::from_millis(100));
+            };
+            struct Out {
+                status: std::process::ExitStatus,
+                stdout: Vec<u8>,
+                stderr: Vec<u8>,
+            }
+            let out = Out { status, stdout: h1.join().unwrap_or_default(), stderr: h2.join().unwrap_or_default() };
+            if timed_out {
+                other.push(format!("E1 BUILD TIMEOUT: `cargo {}` did not finish within {} s and was killed (a compiler or derive macro that does not terminate); inconclusive", args.first().copied().unwrap_or(""), limit));
+                return;
+            }
             let stdout = String::from_utf8_lossy(&out.stdout);
             let mut saw_error = false;
             for line in stdout.lines() {
